@@ -337,7 +337,12 @@ def _parse_object(
     :return: The ``Object`` model equivalent to the schema.
     """
     state = state or _ParseState()
-    title = schema.get("title", schema.get("_x_autotitle"))
+    autotitle = schema.get("_x_autotitle")
+    if not isinstance(autotitle, str):
+        autotitle = ""
+    title = schema.get("title")
+    if not (title and isinstance(title, str)):
+        title = autotitle
     if not title:
         raise SchemaParseError.missing_title(schema)
     # Keep the numeric suffix of de-duplicated class names (see `dedupe`), so
@@ -345,9 +350,7 @@ def _parse_object(
     base, _, suffix = title.rpartition("_")
     if not (re.fullmatch("[0-9]+", suffix) and _title_format(base)):
         base, suffix = title, ""
-    title = _title_format(base) or _title_format(
-        schema.get("_x_autotitle", "")
-    )
+    title = _title_format(base) or _title_format(autotitle)
     if not title:
         raise SchemaParseError.missing_title(schema)
     if title[0].isdigit():
